@@ -149,10 +149,10 @@ func walk(cw []byte) traceInfo {
 				ti.cwMode[i] = mASCII
 				i++
 			}
-		case 236:
-			tr = append(tr, 'M', '5')
-		case 237:
-			tr = append(tr, 'M', '6')
+		case 236, 237:
+			if i == 1 {
+				tr = append(tr, 'M', '5'+c-236)
+			}
 		}
 	}
 	ti.trace = string(tr)
